@@ -40,6 +40,10 @@ type MgrOpts struct {
 	SendBuffer    uint              `json:"send_buffer,omitempty"`
 	DialTimeoutMs int               `json:"dial_timeout_ms,omitempty"`
 	WithBlock     bool              `json:"with_block,omitempty"`
+	// FailFastDial (with WithBlock): a blocking dial gives up at once when the address refuses
+	// the connection (grpc.FailOnNonTempDialError) instead of retrying until the dial timeout;
+	// a dial that gets no answer at all still waits for the whole timeout.
+	FailFastDial bool `json:"fail_fast_dial,omitempty"`
 	BackoffMs     int               `json:"backoff_ms,omitempty"`
 	Metadata      map[string]string `json:"metadata,omitempty"`
 	PerNodeMD     bool              `json:"per_node_md,omitempty"`
@@ -225,6 +229,9 @@ func newClientOnce(cl *Cluster, o MgrOpts) (*Client, error) {
 	}
 	if o.WithBlock {
 		dial = append(dial, grpc.WithBlock())
+		if o.FailFastDial {
+			dial = append(dial, grpc.FailOnNonTempDialError(true)) //nolint:staticcheck // the option is what an application with this need uses
+		}
 	}
 	if o.MaxSendBytes > 0 {
 		dial = append(dial, grpc.WithDefaultCallOptions(grpc.MaxCallSendMsgSize(o.MaxSendBytes)))
